@@ -640,3 +640,4 @@ _add_v("C12", "print_render", "pairs")     # deterministic key order in print / 
 _add_v("C09", "interp")                    # the position of a slot error moves with the layout
 PROPS["C09"]._k = PROPS["C09"]._k + [u for u in props_lexer.C18_UNITS if u not in PROPS["C09"]._k]   # CR is not a line break; columns count characters
 _add_v("C03", "lex_next")                  # the terminator filter is a loop that terminates (no recursion)
+_add_v("C18", "name_bind")                 # an undefined name is reported at the name, also as the target of `op=`
